@@ -1,6 +1,7 @@
 import Proofs.C02
 import FsicModel.Linker
 import Proofs.Lemmas.LinkerOutcome
+import Proofs.Lemmas.LinkerTable
 /-
 C08 — Linker solves its submodels jointly and consistently.
 
@@ -669,6 +670,26 @@ theorem single_model_linker_eq_model_all {τ : Type} (M : Interp τ V) (π : σ 
     | nonFinite u k => rcases hres with ⟨b, h⟩ | h <;> simp [finish, LoopOut.map] at h
     | afterRaised u k => rcases hres with ⟨b, h⟩ | h <;> simp [finish, LoopOut.map] at h
     | badErrors u k => rcases hres with ⟨b, h⟩ | h <;> simp [finish, LoopOut.map] at h
+
+/-! ### Converse: the agreement table of the linker -/
+
+/-- **The linker's agreement table.**  Whatever the submodels, hooks, selection, options, span and period, one
+    `BaseLinker.solve_t` call is the application of an outcome whose stamp and result are one of the rows of `LAgree`:
+    '.' only with `True` and a count in `max(1, min_iter) … max_iter`; 'F' only with `False` (NonConvergenceError exactly
+    when `failures='raise'`) and count `max(max_iter, 0)`; no stamp with KeyError (unknown submodel), IndexError (offset
+    outside the span) or a propagated exception — and nothing else: in particular never 'S' or 'E'. -/
+theorem linker_agreement (sel : List Id) (w : World σ) :
+    ∃ oc : LOutcome σ, lSolveT L o n t sel w = applyLOutcome n t w oc ∧ LAgree o oc.2.1 oc.2.2 :=
+  ⟨lOutcomeOf L o n t sel w.user, lSolveT_eq_outcome L o n t sel w, lOutcome_agrees L o n t sel w.user⟩
+
+/-- The linker itself never records 'S' or 'E' (it has no numerical-error policy of its own). -/
+theorem linker_never_skipped_or_error (sel : List Id) (u : σ) (k : Int) :
+    (lOutcomeOf L o n t sel u).2.1 ≠ some (.skipped, k) ∧ (lOutcomeOf L o n t sel u).2.1 ≠ some (.error, k) := by
+  have h := lOutcome_agrees L o n t sel u
+  generalize lOutcomeOf L o n t sel u = oc at h ⊢
+  rcases oc with ⟨u', st, r⟩
+  simp only at h ⊢
+  constructor <;> intro e <;> subst e <;> cases r <;> simp only [LAgree] at h
 
 /-! ### Non-vacuity -/
 
